@@ -40,7 +40,7 @@ func genCase(profile string) *rapid.Generator[Case] {
 		}
 		c.Cfg.Gates = gateSets[rapid.SampledFrom(sets).Draw(t, "gates")]
 		hot := []string{"svc.s.1", "svc.s.2", "svc.t.a.1", "svc.t.a.2", "svc.r.1", "svc.m.1", "svc.m.w.a.x", "svc.t.a.1", "svc.m.fixed", "svc.m.q.1",
-			"svc.u.book.1", "svc.u.toy.1", "svc.m.a.b", "svc.m.c.b", "svc.r.1", "svc", "svc"}
+			"svc.u.book.1", "svc.u.toy.1", "svc.m.a.b", "svc.m.c.b", "svc.r.1", "svc", "svc", "svc.m.n.a.1", "svc.m.n.a.2", "svc.x.a.1", "svc.x.a.2", "svc.m.n.k.1.a", "svc.m.n.k.2.a"}
 		genRID := rapid.OneOf(rapid.SampledFrom(hot), rapid.SampledFrom(hot), rapid.SampledFrom(allRIDs))
 		foreign := func() Op {
 			return Op{K: "foreign", Typ: rapid.SampledFrom([]string{"reset", "resetall", "token", "tokenid", "tokenreset", "event"}).Draw(t, "ftyp"), RID: rapid.SampledFrom(allRIDs[:10]).Draw(t, "rid")}
@@ -58,7 +58,7 @@ func genCase(profile string) *rapid.Generator[Case] {
 				}
 				return Op{K: "with", RID: rid, QE: rapid.IntRange(0, 9).Draw(t, "qe") == 0}
 			case k < 74:
-				return Op{K: "deliver", RID: genRID.Draw(t, "rid"), Typ: rapid.SampledFrom([]string{"get", "call", "access", "auth"}).Draw(t, "typ"), QE: rapid.IntRange(0, 9).Draw(t, "qe") == 0}
+				return Op{K: "deliver", RID: genRID.Draw(t, "rid"), Typ: rapid.SampledFrom([]string{"get", "call", "access", "auth"}).Draw(t, "typ"), QE: rapid.IntRange(0, 9).Draw(t, "qe") == 0, Pick: rapid.IntRange(0, 1).Draw(t, "othermethod")}
 			case k < 79:
 				return Op{K: "withres", RID: rapid.SampledFrom(hot).Draw(t, "rid"), Pick: rapid.IntRange(0, 1).Draw(t, "reqobj")}
 			case k < 84:
